@@ -187,6 +187,11 @@ def set_causes():
         ("path-syntax-error", ["--change=/a[", "--value=x"]),
         ("bad-index", ["--change=/b[x]", "--value=x"]),
         ("delete-unmatched", ["--change=/nope", "--delete"]),
+        # the change is made in memory but its result cannot be written (the
+        # tool ends with an uncaught error = non-zero status)
+        ("result-tag-on-number", ["--change=/a", "--value=5", "--tag=!x"]),
+        ("result-anchor-name-unwritable", ["--change=/zz", "--aliasof=/a",
+                                           "--anchor=a,b"]),
     ]
 
 
@@ -222,6 +227,12 @@ def pre_write(st, wd, di):
                 full = argv + (["--backup"] if backup else []) + [
                     os.path.join(wd, "target.yaml")]
                 res = cli.run("yaml-set", full, cwd=wd)
+                if cause.startswith("result-") and res.code == 0 \
+                        and res.exc is None:
+                    # (written as JSON, where the tag or anchor is not
+                    # presented at all: the run is no failure)
+                    st.extra["result_presentable_after_all"] += 1
+                    continue
                 judge_refusal(st, "yaml-set", cause, res, before,
                               snapshot(wd), {"doc": doc, "argv": argv,
                                              "backup": backup,
